@@ -543,22 +543,18 @@ def check_kind(ctx, name, kind, thunk, values, probes):
             for (vid, vclass, v), ob in zip(values, base_val):
                 ctx.ev()
                 ctx.count("def_validate_comparisons")
-                # the original again (a definition may legitimately be stateful, e.g. lazily
-                # resolved class names): compare like with like, after the same number of calls
-                oa = outcome(ct.validate, host, "x", v)
                 orr = outcome(rt.validate, host, "x", v)
                 classes.add(("v", vclass, out_class(orr)))
                 classes.add(("k", kind, out_class(orr)))
-                if not out_equiv(oa, orr):
-                    complaint = "validate-differs"
-                    detail = "validate(%s): original %s, round-tripped %s" % (
-                        vid, short(oa, 120), short(orr, 120))
-                    break
-                if not out_equiv(ob, orr) and ob[0] != orr[0]:
-                    complaint = "validate-differs"
-                    detail = "validate(%s): original (before round trip) %s, round-tripped %s" % (
-                        vid, short(ob, 120), short(orr, 120))
-                    break
+                if not out_equiv(ob, orr):
+                    # the original again: a definition may legitimately be stateful (e.g. a lazily
+                    # resolved class name), compare like with like before complaining
+                    oa = outcome(ct.validate, host, "x", v)
+                    if not out_equiv(oa, orr):
+                        complaint = "validate-differs"
+                        detail = "validate(%s): original %s, round-tripped %s" % (
+                            vid, short(oa, 120), short(orr, 120))
+                        break
         if complaint is None:
             ctx.ev()
             da, db = outcome(ct.default_value), outcome(rt.default_value)
@@ -577,9 +573,9 @@ def check_kind(ctx, name, kind, thunk, values, probes):
                                                      short([mb[k] for k in bad], 150))
         if complaint is None:
             inst, k_rt = install_script(rt, probes, mode)
-            ref_inst, k_ref = install_script(ct, probes, "orig2")
+            ref_inst, k_ref = base_install, _k0
             _SELF_PAIR[0], _SELF_PAIR[1] = k_ref, k_rt
-            for (sa, oa), (sb, ob), (sc, oc) in zip(ref_inst, inst, base_install):
+            for (sa, oa), (sb, ob) in zip(ref_inst, inst):
                 ctx.ev()
                 ctx.count("def_install_steps")
                 if sa != sb or not out_equiv(oa, ob):
